@@ -1229,7 +1229,7 @@ fn main() {
     let args = Args::parse();
     quiet_panics();
     let mut s = Session::new(&args.out);
-    s.rule = "seeded builder programs of 1..8 calls over {with_compression N/Z/4/E/F, with_chunk_size_unchecked 0/1/2/3/5/16/64/1024/default, with_encryption / without_encryption, add_data, add_mixed_data(None|Some), add_encrypted_data(index = position | foreign), add_chunk(ChunkData::new)} with Salsa20 / ARC4 / unknown cipher types, payload lengths 0, 1, cs-1, cs, cs+1, 2cs, 2cs+1, 3cs+r, random, first byte forced to N/Z/4/E/F in a third of them, constant / periodic / random content; plus an exhaustive sweep of one- and two-call programs over {add_data, add_mixed_data, add_encrypted_data, add_chunk}^2 x payload lengths {0,1,cs-1,cs,cs+1,2cs,2cs+1} x modes x {plain, Salsa20, ARC4}; non-trivial = every call succeeded, build produced a container with >= 1 chunk and it was decoded; distinct = canonical text of the whole program".into();
+    s.rule = "seeded builder programs of 1..8 calls over {with_compression N/Z/4/E/F, with_chunk_size_unchecked 0/1/2/3/5/16/64/1024/default, with_encryption / without_encryption, add_data, add_mixed_data(None|Some), add_encrypted_data(index = position | foreign), add_chunk(ChunkData::new)} with Salsa20 / ARC4 / unknown cipher types, payload lengths 0, 1, cs-1, cs, cs+1, 2cs, 2cs+1, 3cs+r, random, first byte forced to N/Z/4/E/F in a third of them, constant / periodic / random content; plus an exhaustive sweep of one- and two-call programs over {add_data, add_mixed_data, add_encrypted_data, add_chunk}^2 x payload lengths {0,1,cs-1,cs,cs+1,2cs,2cs+1} x modes x {plain, Salsa20, ARC4}; plus the entry points outside the builder: BlteFile::compress exhaustively over chunk sizes {0,1,2,4,5,64} x lengths {0,1,cs-1,cs,cs+1,2cs,2cs+1,3cs+2} x modes N/Z/4/E/F and seeded random (chunk sizes 0..4096), single_chunk over modes x lengths, multi_chunk / multi_chunk_extended over vectors of 0..6 ChunkData::new chunks (random modes incl. E/F) and over hand-made from_compressed chunks (K only), nested containers as content, hand-made containers with a Frame chunk (single-chunk and at every table position, both table formats) and encrypted chunks whose inner payload starts with F / E; non-trivial = every call succeeded, a container with >= 1 chunk was produced and decoded (or, for the hand-made Frame / nested containers, parsed and handed to both decoders); distinct = canonical text of the whole program / request".into();
     let mut rng = Rng::new(args.seed);
 
     if let Some(p) = &args.replay {
